@@ -91,6 +91,36 @@ func VC18_FindRoute() {
 	rt.Reach("end")
 }
 
+// VC18_History: the answer for a host does not depend on what was looked up before: host, other
+// host(s), host again — for every table of 1..N entries and symbolic hosts.
+func VC18_History() {
+	L, N, U, M := rt.Param("L"), rt.Param("N"), rt.Param("U"), rt.Param("M")
+	var pats []string
+	next := 0
+	n := rt.Choice("n", N) + 1
+	for i := 0; i < n; i++ {
+		rt.Assume(next < U)
+		k := next + rt.Choice("pat", U-next)
+		pats = append(pats, c18Universe[k])
+		next = k + 1
+	}
+	host := rt.Str("host", "[a-cXo0m.-]", 1, L)
+	table := NewPreConfigRoute()
+	for i, p := range pats {
+		table.AddRouteItem("udp", p, "hop"+itoa(i)+":"+itoa(6000+i))
+	}
+	pr1, h1, p1, err1 := table.FindRoute(host)
+	for i := 0; i < M; i++ {
+		table.FindRoute(rt.Str("other", "[a-cXo0m.-]", 1, L))
+	}
+	pr2, h2, p2, err2 := table.FindRoute(host)
+	rt.Assert((err1 == nil) == (err2 == nil), "stable across other lookups: routability")
+	if err1 == nil && err2 == nil {
+		rt.Assert(h1 == h2 && p1 == p2 && pr1 == pr2, "stable across other lookups: same entry")
+	}
+	rt.Reach("end")
+}
+
 // VC18_NextHop: host[:port] next hops for udp / tcp / tls.
 func VC18_NextHop() {
 	L := rt.Param("L")
